@@ -281,3 +281,15 @@ func StripTSIG(b []byte) []byte {
 	binary.BigEndian.PutUint16(out[10:], binary.BigEndian.Uint16(out[10:])-1)
 	return out
 }
+
+// HMAC computes the MAC of msg under the named algorithm (nil when the
+// algorithm is not one of the five HMAC-SHA variants).
+func HMAC(alg string, secret, msg []byte) []byte {
+	hf := hmacFor(strings.ToLower(alg))
+	if hf == nil {
+		return nil
+	}
+	h := hmac.New(hf, secret)
+	h.Write(msg)
+	return h.Sum(nil)
+}
